@@ -227,6 +227,33 @@ def run(res, tier):
                "the stored point is visible in a partially written state")
     if fn:
         res.violation("crash:stored-point-update-not-atomic", "a crash during a publication point update leaves a partially written stored point", fn)
+    # the recovery path: a leftover (empty / partial) stored-point file is replaced by StoredPoint::create, which
+    # therefore must open the file in create-or-truncate mode; create_new would fail on the leftover file and the
+    # point could never be stored again
+    if open_partial["recreate"] > 0:
+        cb = E.prog.find("src/store.rs", "StoredPoint", "create")
+        total += 1
+        for i, p in enumerate(E.explore(cb, max_visits=2, nomut=[r"."])):
+            if p.kind != "return":
+                continue
+            cn = [e for e in p.events if e.kind == "call" and re.search(r"OpenOptions::create_new$", e.name)]
+            excl = False
+            for e in cn:
+                v = e.args[-1].get(()) if e.args else None
+                if not mir.is_z(v) or E.feasible(p.cond, v):
+                    excl = True
+            opened = [e for e in p.events if e.kind == "call" and re.search(r"File::create$|(^|::)create_file$|OpenOptions::open$", e.name)]
+            if excl and opened:
+                d = os.path.join(mprop.VERIF, "replays", res.prop)
+                os.makedirs(d, exist_ok=True)
+                fn = mprop.write_cex(res, "create_exclusive_%d" % i, p, E,
+                                     "StoredPoint::create opens the point file with create_new(true): after a crash that left an empty "
+                                     "or partial file, StoredPoint::open's recovery (discard and recreate) fails with 'File exists' on "
+                                     "every later run")
+                res.violation("crash:stored-point-recreate-fails-on-leftover-file",
+                              "a stored-point file left empty or partial by a crash can never be replaced: StoredPoint::create "
+                              "refuses to overwrite an existing file (create_new), so every later run fails at that point", fn)
+                break
     # a stored point must never be missing after a crash: old or new version (StoredPoint::open would silently start an
     # empty, never-successful point and the previous version of the whole subtree is lost)
     for nm in ("stored point, update (StoredPoint::_update)", "stored point, reject (StoredPoint::reject)"):
